@@ -335,7 +335,7 @@ func GenCVersion(r *rand.Rand, sys semver.System) string {
 		s = Pick(r, "*", "x", "1.x", "1.*.2", "x.1", "x.1.2", "*.0.0", "X.2.3", "x.x.1", "1.x.x", "*.*.*", "0.x.0")
 	}
 	if k == 3 && r.Intn(3) == 0 {
-		s += "-" + Pick(r, "a", "b", "1", "a.1", "0", "rc.2", "A", "Zeta", "zeta", "Beta", "rc", "RC.1")
+		s += "-" + Pick(r, "a", "b", "1", "a.1", "0", "rc.2", "A", "Zeta", "zeta", "Beta", "rc", "RC.1", "rc.011", "01", "rc.11", "0.01", "alpha.007", "11")
 		if sys == semver.NuGet && r.Intn(6) == 0 {
 			s += "*"
 		}
